@@ -17,7 +17,7 @@ META = {
                    "where the comparison says so; (C16.4) set_port visits every element with the parameter and TcpTransport::connect applies it to the resolver's answer before "
                    "building the attempts, the port deriving from get_host_and_port(uri); (C16.5) sort_preferred is called on happy_eyeballs_timeout.is_some() with "
                    "IpVersion::from_binding(local_v4, local_v6), whose table is checked; (C16.6) consumption order = C11.1."
-                   " As built now: C16.1 is the sort table (165 scenarios over the sequence model), C16.6 the candidate-loop and process_all tables (attempts start in list order), C16.7 / from_binding are small tables.",
+                   " As built now: C16.1 is the sort table (165 scenarios over the sequence model), C16.6 the candidate-loop and process_all tables (attempts start in list order), C16.7 / from_binding are small tables, C16.4 the port table (the port-applying method of SocketAddrs on lists of 0-3 addresses: same addresses, same order, each with the port).",
     "trusted_base": ["rustc type/borrow checker", "std VecDeque::{remove, push_front, pop_front, iter}"],
     "assumptions": ["VecDeque::remove(idx) returns Some for an index recorded by the scan of the same, unmodified list"],
     "undecided": "index arithmetic beyond the shape checked in C16.3 (values)",
